@@ -335,8 +335,11 @@ func TestC14_AssignmentRelayGatingFees(t *testing.T) {
 				for _, m := range queueMsgs(ch.RefID) {
 					em := evm(m)
 					slc := em.GetSubmitLogicCall()
-					if slc == nil || m.GetGasEstimate() == 0 || slc.Fees == nil {
+					if slc == nil || m.GetGasEstimate() == 0 {
 						continue
+					}
+					if slc.Fees == nil {
+						t.Fatalf("message %d on %s has an elected gas estimate (%d) but no fees attached\nhistory: %v", m.GetId(), ch.RefID, m.GetGasEstimate(), log)
 					}
 					idx := -1
 					for i, v := range c.Vals {
@@ -347,6 +350,9 @@ func TestC14_AssignmentRelayGatingFees(t *testing.T) {
 					mult, ok := new(big.Rat).SetString(vals[idx].fee[ch.RefID])
 					if !ok {
 						continue
+					}
+					if mult.Sign() == 0 {
+						continue // the fee was withdrawn after the election; the attached fees were computed with the earlier multiplicator
 					}
 					gas := new(big.Rat).SetInt(new(big.Int).SetUint64(m.GetGasEstimate()))
 					rel := c14Ceil(new(big.Rat).Mul(mult, gas))
@@ -397,11 +403,19 @@ func TestC14_AssignmentRelayGatingFees(t *testing.T) {
 					t.Skip("nothing to estimate")
 				}
 				id := rapid.SampledFrom(need).Draw(t, "msg")
+				ids := []uint64{id}
+				if rapid.Bool().Draw(t, "allPending") {
+					ids = need
+				}
 				k := rapid.IntRange(1, n).Draw(t, "howMany")
 				var txs [][]byte
 				for _, v := range c.Vals[:k] {
-					gas := rapid.OneOf(rapid.Uint64Range(21000, 500000), rapid.Uint64Range(1, 1<<40)).Draw(t, "gas")
-					txs = append(txs, c.MustSign(v.Actor, &consensustypes.MsgAddMessageGasEstimates{Metadata: chain.MD(v.Actor), Estimates: []*consensustypes.MsgAddMessageGasEstimates_GasEstimate{{MsgId: id, QueueTypeName: chain.TurnstoneQueue(ch.RefID), Value: gas, EstimatedByAddress: chain.EthAddr(v.EthKeys[ch.RefID]).Hex()}}}))
+					var es []*consensustypes.MsgAddMessageGasEstimates_GasEstimate
+					for _, mid := range ids {
+						gas := rapid.OneOf(rapid.Uint64Range(21000, 500000), rapid.Uint64Range(1, 1<<40)).Draw(t, "gas")
+						es = append(es, &consensustypes.MsgAddMessageGasEstimates_GasEstimate{MsgId: mid, QueueTypeName: chain.TurnstoneQueue(ch.RefID), Value: gas, EstimatedByAddress: chain.EthAddr(v.EthKeys[ch.RefID]).Hex()})
+					}
+					txs = append(txs, c.MustSign(v.Actor, &consensustypes.MsgAddMessageGasEstimates{Metadata: chain.MD(v.Actor), Estimates: es}))
 				}
 				before := snapshotElig()
 				if _, err := c.Block(txs...); err != nil {
@@ -456,6 +470,26 @@ func TestC14_AssignmentRelayGatingFees(t *testing.T) {
 				cnt := judgeNew(t, before)
 				log = append(log, fmt.Sprintf("publishValset new=%d", cnt))
 				checkRelay(t)
+			},
+			"zeroFee": func(t *rapid.T) {
+				// a validator withdraws its relayer fee for a chain (multiplicator 0): fee computation for messages already
+				// assigned to it fails from now on
+				i := rapid.IntRange(0, n-1).Draw(t, "val")
+				ch := rapid.SampledFrom(chains).Draw(t, "chain")
+				v := c.Vals[i]
+				before := snapshotElig()
+				res, err := c.Block(c.MustSign(v.Actor, &treasurytypes.MsgUpsertRelayerFee{Metadata: chain.MD(v.Actor), FeeSetting: &treasurytypes.RelayerFeeSetting{ValAddress: v.Val().String(),
+					Fees: []treasurytypes.RelayerFeeSetting_FeeSetting{{ChainReferenceId: ch.RefID, Multiplicator: sdkmath.LegacyZeroDec()}}}}))
+				if err != nil {
+					t.Fatalf("block: %v", err)
+				}
+				if res.TxResults[0].Code == 0 {
+					vals[i].fee[ch.RefID] = "0"
+				}
+				judgeNew(t, before)
+				log = append(log, fmt.Sprintf("zeroFee(v%d,%s)=%v", i, ch.RefID, res.TxResults[0].Code == 0))
+				checkRelay(t)
+				checkFees(t)
 			},
 			"dropMetrics": func(t *rapid.T) {
 				i := rapid.IntRange(0, n-1).Draw(t, "val")
